@@ -308,7 +308,15 @@ func R79() Rule {
 						n++
 						k++
 						construct := fmt.Sprintf("(*GcsEmu).finishUpload/Md5Hash-assignment#%d/hash-of-the-stored-bytes", k)
-						if hashOf(P, st.Val, isSumOfContent, map[ssa.Value]bool{}, 0) {
+						if hashOf(P, st.Val, isSumOfContent, map[ssa.Value]bool{}, 0) || derivesFromMd5Of(P, st.Val, setOf(scope), func(o ssa.Value) bool {
+							if sameContent(o) {
+								return true
+							}
+							// the content as handed to the upload path: an input of finishUpload that is also what Add receives
+							_, _, isInput := inputOf(root, o)
+							_, _, addIsInput := inputOf(root, core.Resolve(content))
+							return isInput && addIsInput && nl.resolveAt(o) == nl.resolveAt(content)
+						}, map[ssa.Value]bool{}, 0) {
 							c.Ok("R79", construct, st.Pos(), true, "the recorded MD5 derives from md5.Sum of the content value that is passed to Store.Add")
 						} else {
 							c.Bad("R79", construct, st.Pos(), "the MD5 recorded for the object does not derive from md5.Sum of the very bytes handed to Store.Add (a declared hash taken over, or a hash of another buffer): metadata and content of the served object disagree")
@@ -518,4 +526,108 @@ func R80() Rule {
 			c.Unknown("R80", "floor/bake-sites", token.NoPos, "only %d calls of InitMetaWithUrls found", n)
 		}
 	}}
+}
+
+// derivesFromMd5Of: v is computed from md5.Sum(X) with isContent holding for every origin of X —
+// through slicing of the digest, encoding calls, named results and local variables (every assignment),
+// φs (every edge), helper parameters (every caller) and the results of in-repository helpers
+// (`contentMd5(contents) (raw []byte, b64 string)`).
+func derivesFromMd5Of(P *core.Program, v ssa.Value, within map[*ssa.Function]bool, isContent func(ssa.Value) bool, seen map[ssa.Value]bool, depth int) bool {
+	if v == nil || depth > 14 {
+		return false
+	}
+	v = core.Strip(v)
+	if seen[v] {
+		return false
+	}
+	seen[v] = true
+	defer delete(seen, v)
+	switch x := v.(type) {
+	case *ssa.Call:
+		if sc := x.Call.StaticCallee(); sc != nil && sc.Pkg != nil && sc.Pkg.Pkg.Path() == "crypto/md5" && sc.Name() == "Sum" {
+			return P.AllOrigins(x.Call.Args[0], within, isContent)
+		}
+		if sc := x.Call.StaticCallee(); sc != nil && sc.Blocks != nil && P.SPkgs[core.PkgPathOf(sc)] != nil {
+			rets := returnsIn(sc)
+			for _, r := range rets {
+				if len(r.Results) != 1 || !derivesFromMd5Of(P, r.Results[0], within, isContent, seen, depth+1) {
+					return false
+				}
+			}
+			return len(rets) > 0
+		}
+		for _, a := range x.Call.Args {
+			if derivesFromMd5Of(P, a, within, isContent, seen, depth+1) {
+				return true
+			}
+		}
+	case *ssa.Extract:
+		call, ok := x.Tuple.(*ssa.Call)
+		if !ok {
+			return false
+		}
+		if sc := call.Call.StaticCallee(); sc != nil && sc.Blocks != nil && P.SPkgs[core.PkgPathOf(sc)] != nil {
+			rets := returnsIn(sc)
+			for _, r := range rets {
+				if x.Index >= len(r.Results) || !derivesFromMd5Of(P, r.Results[x.Index], within, isContent, seen, depth+1) {
+					return false
+				}
+			}
+			return len(rets) > 0
+		}
+		return derivesFromMd5Of(P, call, within, isContent, seen, depth+1)
+	case *ssa.Parameter:
+		fn := x.Parent()
+		n := 0
+		for i, p := range fn.Params {
+			if p != x {
+				continue
+			}
+			for _, r := range P.Refs(fn) {
+				call, ok := r.Instr.(ssa.CallInstruction)
+				if !ok || r.Kind != core.RefCall || i >= len(call.Common().Args) {
+					continue
+				}
+				n++
+				if !derivesFromMd5Of(P, call.Common().Args[i], within, isContent, seen, depth+1) {
+					return false
+				}
+			}
+		}
+		return n > 0
+	case *ssa.Slice:
+		return derivesFromMd5Of(P, x.X, within, isContent, seen, depth+1)
+	case *ssa.UnOp:
+		if x.Op == token.MUL {
+			if cell := core.CellOf(x.X); cell != nil {
+				sts := core.StoresTo(cell)
+				for _, st := range sts {
+					if !derivesFromMd5Of(P, st.Val, within, isContent, seen, depth+1) {
+						return false
+					}
+				}
+				return len(sts) > 0
+			}
+		}
+		return derivesFromMd5Of(P, x.X, within, isContent, seen, depth+1)
+	case *ssa.Alloc:
+		sts := core.StoresTo(x)
+		for _, st := range sts {
+			if derivesFromMd5Of(P, st.Val, within, isContent, seen, depth+1) {
+				return true
+			}
+		}
+	case *ssa.Phi:
+		for _, e := range x.Edges {
+			if !derivesFromMd5Of(P, e, within, isContent, seen, depth+1) {
+				return false
+			}
+		}
+		return len(x.Edges) > 0
+	case *ssa.Convert:
+		return derivesFromMd5Of(P, x.X, within, isContent, seen, depth+1)
+	case *ssa.ChangeType:
+		return derivesFromMd5Of(P, x.X, within, isContent, seen, depth+1)
+	}
+	return false
 }
